@@ -11,7 +11,7 @@ W4 borrowed view: the vtable built in with_waker is (clone, unreachable, wake_by
 W5 each wake path calls the underlying wake function exactly once.
 Schedules: all cross-thread state is inside BaseArc's atomics and the caller's waker; the rules are schedule-independent.
 """
-from lib import facts, mir, report, ledger, forward
+from lib import facts, mir, report, ledger, forward, sem
 
 T = "cglue::task::"
 
@@ -83,7 +83,13 @@ def run(tier):
         if p in summ:
             body = summ[p][1]
             cs = [(i, t) for i, t in body.calls() if (mir.callee_path(t) or "") == callee]
-            ck.ob("W5-record-slot-wakes-once", "task/" + p, len(cs) == 1 and body.on_all_paths_to_return(cs[0][0]) and not body.in_cycle(cs[0][0]),
+            direct = len(cs) == 1 and body.on_all_paths_to_return(cs[0][0]) and not body.in_cycle(cs[0][0])
+            if not direct:
+                # through a local helper: on every path of the summary (helpers of task/mod.rs stepped into) exactly one such call happens
+                ev = sem.Evaluator(fns, {}, inline=lambda q: q in fns)
+                outs = ev.run(fns[p], [("sym", "w")])
+                direct = bool(outs) and all(o.kind == "ret" and len(o.calls(callee)) == 1 for o in outs)
+            ck.ob("W5-record-slot-wakes-once", "task/" + p, direct,
                   "%s must call %s exactly once" % (p, callee), sample={"fn": p})
     # ---- W2: who invokes consuming slots --------------------------------------------------------------------
     n_inv = 0
@@ -186,6 +192,26 @@ def run(tier):
                     ok = ret[0] == "call" and ret[1] == T + "CRawWaker::to_raw" and ret[2][0][0] == "call" and ret[2][0][1] == "tarc::BaseArc::<T>::new" and ret[2][0][2][0][0] == "icall"
                     a = mir.deepstrip(b.origin_operand(ic[0][1]["args"][0]))
                     ok = ok and mir.contains(a, lambda x: x[0] == "field" and x[2] == "raw")
+                if not ok:
+                    # semantic form (private accessors of the view stepped into): stored clone called once on the view's own `raw`, its record
+                    # wrapped by BaseArc::new, that handle turned into the RawWaker by to_raw
+                    ev = sem.Evaluator(fns, {}, inline=lambda q: q in fns and q != T + "CRawWaker::to_raw")
+                    data = ("sym", "data")
+                    outs = ev.run(cfn, [data])
+                    if len(outs) == 1 and outs[0].kind == "ret":
+                        o = outs[0]
+                        ics = [e for e in o.effects if e[0] == "icall"]
+                        news = o.calls("BaseArc::<T>::new")
+                        tor = o.calls("CRawWaker::to_raw")
+                        ok = len(ics) == 1 and len(news) == 1 and len(tor) == 1
+                        if ok:
+                            fval = sem.strip(ics[0][1])
+                            own_raw = sem.contains(ics[0][2][0], lambda x: x[0] == "fld" and x[3] == "raw" and sem.contains(x, lambda y: y == data))
+                            rec = sem.strip(news[0][2][0])
+                            hnd = sem.strip(tor[0][2][0])
+                            r = sem.strip(o.ret)
+                            ok = fval[0] == "fld" and fval[3] == "clone" and sem.contains(fval, lambda y: y == data) and own_raw \
+                                and rec[0] == "opq" and rec[2][0] == "icall" and hnd[0] == "opq" and hnd[1] == news[0][3] and r[0] == "opq" and r[1] == tor[0][3]
                 ck.ob("W4-borrowed-clone-makes-real-clone", "task/with_waker/clone", ok, "cloning the borrowed view must call the stored clone once on its own `raw` and wrap the record in BaseArc::new -> to_raw")
             if rfn is not None:
                 b = mir.Body(rfn)
